@@ -469,7 +469,8 @@ macro_rules! impl_nio_read_buf {
                 let start_time = $crate::common::now();
                 let mut left_time = $crate::syscall::recv_time_limit($fd);
                 let mut received = 0;
-                let mut r = -1;
+                // a zero-length request transfers nothing and returns 0
+                let mut r = if $len == 0 { 0 } else { -1 };
                 while received < $len && left_time > 0 {
                     r = self.inner.$syscall(
                         fn_ptr,
@@ -564,7 +565,8 @@ macro_rules! impl_nio_read_iovec {
                 };
                 let mut length = 0;
                 let mut received = 0usize;
-                let mut r = -1;
+                // a request without any bytes transfers nothing and returns 0
+                let mut r = if vec.iter().all(|i| i.iov_len == 0) { 0 } else { -1 };
                 let mut index = 0;
                 for iovec in &vec {
                     let stage = length;
@@ -694,7 +696,8 @@ macro_rules! impl_nio_write_buf {
                 let start_time = $crate::common::now();
                 let mut left_time = $crate::syscall::send_time_limit($fd);
                 let mut sent = 0;
-                let mut r = -1;
+                // a zero-length request transfers nothing and returns 0
+                let mut r = if $len == 0 { 0 } else { -1 };
                 while sent < $len && left_time > 0 {
                     r = self.inner.$syscall(
                         fn_ptr,
@@ -789,7 +792,8 @@ macro_rules! impl_nio_write_iovec {
                 };
                 let mut length = 0;
                 let mut sent = 0usize;
-                let mut r = -1;
+                // a request without any bytes transfers nothing and returns 0
+                let mut r = if vec.iter().all(|i| i.iov_len == 0) { 0 } else { -1 };
                 let mut index = 0;
                 for iovec in &vec {
                     let stage = length;
